@@ -105,6 +105,7 @@ var workerProgress atomic.Int64
 // type (nil: generate from seed). Returns the result and the plan's JSON.
 func run(t *testing.T, profile, prop string, seed uint64, planJSON json.RawMessage, tape []core.TapeEntry, strict bool, dir string) (*RunResult, json.RawMessage) {
 	var res *RunResult
+	profile, deep := strings.CutSuffix(profile, "+deep") // thorough tier: deeper bounds
 	switch profile {
 	case "tree", "treereopen":
 		var p *TreePlan
@@ -112,7 +113,7 @@ func run(t *testing.T, profile, prop string, seed uint64, planJSON json.RawMessa
 			p = &TreePlan{}
 			json.Unmarshal(planJSON, p)
 		} else {
-			p = genTree(seed, profile == "treereopen")
+			p = genTree(seed, profile == "treereopen", deep)
 		}
 		res = runTree(p, prop, dir)
 		planJSON, _ = json.Marshal(p)
@@ -123,7 +124,7 @@ func run(t *testing.T, profile, prop string, seed uint64, planJSON json.RawMessa
 			p = &BufPlan{}
 			json.Unmarshal(planJSON, p)
 		} else {
-			p = genBuffer(seed)
+			p = genBuffer(seed, deep)
 		}
 		res = runBuffer(p, dir)
 		planJSON, _ = json.Marshal(p)
@@ -134,7 +135,7 @@ func run(t *testing.T, profile, prop string, seed uint64, planJSON json.RawMessa
 			p = &AllocPlan{}
 			json.Unmarshal(planJSON, p)
 		} else {
-			p = genAlloc(seed)
+			p = genAlloc(seed, deep)
 		}
 		var dec *core.Decider
 		if tape != nil {
@@ -288,6 +289,13 @@ func TestWorker(t *testing.T) {
 	var job Job
 	if err := json.Unmarshal(raw, &job); err != nil {
 		t.Fatal(err)
+	}
+	for _, pn := range job.Profiles {
+		switch base, _ := strings.CutSuffix(pn, "+deep"); base {
+		case "tree", "treereopen", "buffer", "alloc":
+		default:
+			t.Fatalf("MACHINERY: unknown profile %q in job", pn)
+		}
 	}
 	f, err := os.OpenFile(job.Out, os.O_CREATE|os.O_WRONLY|os.O_APPEND, 0o644)
 	if err != nil {
